@@ -164,15 +164,18 @@ class Ctx:
         phases = [Phase.generate] + ([Phase.shrink] if shrink else [])
         shrink_budget = 20 if self.tier == "quick" else 120
         remaining = max_examples
-        for round_no in range(max_buckets + 1):
-            if remaining <= 0 or self.out_of_time():
-                break
+        round_no = 0
+        buckets_found = 0
+        chunk_size = 400 if self.tier == "quick" else 2000  # Hypothesis keeps drawing after the budget: run in chunks
+        while remaining > 0 and buckets_found <= max_buckets and not self.out_of_time():
+            round_no += 1
+            this = min(remaining, chunk_size)
             last = {}
             n_before = self.evals
 
             @hypothesis.seed(self.seed * 1000003 + seed_offset * 101 + round_no)
             @settings(
-                max_examples=remaining,
+                max_examples=this,
                 database=None,
                 deadline=None,
                 phases=phases,
@@ -209,7 +212,8 @@ class Ctx:
                 f = last["f"]
                 self._session_buckets.add(f.bucket)
                 self.failures.append(f)
-                remaining -= max(1, self.evals - n_before)
+                buckets_found += 1
+                remaining -= max(1, min(this, self.evals - n_before))
                 continue
             except hypothesis.errors.Flaky as exc:
                 if last.get("cut"):
@@ -219,11 +223,12 @@ class Ctx:
                     self._session_buckets.add(f.bucket)
                     self.failures.append(f)
                     self.note("shrinking of a failure was cut short by its time budget")
-                    remaining -= max(1, self.evals - n_before)
+                    buckets_found += 1
+                    remaining -= max(1, min(this, self.evals - n_before))
                     continue
                 # nondeterministic body: harness problem
                 raise HarnessError(f"flaky hypothesis test: {exc}") from exc
-            break
+            remaining -= this
 
 
 def _sample(case):
